@@ -215,7 +215,50 @@ def evaluate_deg(case):
     return fails, tags, core.canon_json(out)
 
 
+PURE_CALLS = {
+    "ural.facebook": (["parse_facebook_url", "convert_facebook_url_to_mobile", "has_facebook_comments"],
+                      ["https://www.facebook.com/groups/123456789/permalink/1234", "https://www.facebook.com/some.handle", "https://m.facebook.com/story.php?story_fbid=1234&id=123456789",
+                       "https://www.facebook.com/people/a-b/123456789", "https://www.facebook.com/photo.php?fbid=1234", "http://a.com/x"]),
+    "ural.youtube": (["parse_youtube_url", "extract_video_id", "normalize_youtube_url"],
+                     ["https://www.youtube.com/watch?v=" + VID, "https://youtu.be/" + VID, "https://www.youtube.com/channel/" + CHAN, "https://www.youtube.com/c/handle",
+                      "https://www.youtube.com/@handle", "https://www.youtube.com/user/handle", "http://a.com/watch?v=" + VID]),
+    "ural.twitter": (["parse_twitter_url", "extract_screen_name", "normalize_screen_name"],
+                     ["https://twitter.com/User", "https://twitter.com/User/status/123456", "https://twitter.com/i/lists/123456", "https://twitter.com/#!/user", "@User", "http://a.com/User"]),
+    "ural.instagram": (["parse_instagram_url", "extract_username_from_instagram_url"],
+                       ["https://www.instagram.com/p/BxKRx5CHn5i/", "https://www.instagram.com/user.name", "https://www.instagram.com/reel/BxKRx5CHn5i", "https://www.instagram.com/explore", "http://a.com/p/x"]),
+    "ural.telegram": (["parse_telegram_url", "convert_telegram_url_to_public"],
+                      ["https://t.me/Channel_1", "https://t.me/Channel_1/123", "https://t.me/s/Channel_1", "https://t.me/joinchat/AAAAbbbb", "http://a.com/Channel_1"]),
+    "ural.google": (["parse_google_drive_url", "extract_url_from_google_link", "is_amp_url", "is_google_link"],
+                    ["https://docs.google.com/spreadsheets/d/" + DOC + "/edit#gid=0", "https://docs.google.com/document/d/" + DOC, "https://www.google.com/url?url=http%3A%2F%2Fb.com",
+                     "https://x.cdn.ampproject.org/c/s/b.com", "http://a.com/x.amp.html", "http://a.com/x"]),
+}
+
+
+def pure_labels():
+    import importlib
+    out = []
+    for mod in sorted(PURE_CALLS):
+        fns, urls = PURE_CALLS[mod]
+        m = importlib.import_module(mod)
+        for fn in fns:
+            if hasattr(m, fn):
+                out += [{"mod": mod, "fn": fn, "args": [u]} for u in urls]
+    return out
+
+
+def pure_thunk(label):
+    import importlib
+    f = getattr(importlib.import_module(label["mod"]), label["fn"])
+
+    def go():
+        r = core.call(f, *label["args"])
+        return [r[0], rec(r[1])] if r[0] == "ok" else list(r)
+    return go
+
+
 def judge(w):
+    if "history" in w:
+        return core.judge_history(PROP + ".pure", w, pure_thunk)
     if w["platform"] == "degenerate":
         return evaluate_deg(dict(DEG_GRID.default_case(), **w["case"]))[0]
     g = the_grid(w["platform"])
@@ -230,6 +273,8 @@ def fails_fn(clause, w):
 
 
 def simplify(w):
+    if "history" in w:
+        return []
     g = DEG_GRID if w["platform"] == "degenerate" else the_grid(w["platform"])
     return [dict(x, platform=w["platform"]) for x in g.wsimplify(w)]
 
@@ -262,6 +307,8 @@ def run(chk):
                 raise core.Harness("no record parsed for " + pf)
     failures, tags = grid.run(chk, DEG_GRID, None, evaluate_deg,
                               shrink=(lambda case: dict(DEG_GRID.wit(case), platform="degenerate"), simplify, fails_fn))
+    chk.rule.append("H2: every ordered pair of %d platform-parser calls from a reset module state." % len(pure_labels()))
+    core.explore_pairs(chk, PROP + ".pure", [(l, pure_thunk(l)) for l in pure_labels()])
     n = chk.cov["states"]
     chk.add("transitions", n * 5)
     chk.add("evaluations", n)
